@@ -295,6 +295,13 @@ func SchedCheck(prop string, cfgsQuick, cfgsThorough []ProbeConfig, bound map[st
 	all := RunSched(prop, c.Tier, builds, budget)
 	explore.Summarize(c, explore.Config{Bound: bound[c.Tier], MaxSteps: 20000}, all, len(all))
 	c.Assume = assume
+	if c.Tier == "thorough" && prop == "C06" {
+		RacePass(c, builds[0], prop, 20)
+		if len(builds) > 2 {
+			// also the worker_limit build (semaphore path)
+			RacePassExtra(c, builds[2], prop, 20)
+		}
+	}
 	probe.Cleanup()
 	c.Finish()
 }
@@ -328,4 +335,37 @@ func ReplaySched(builds []Built, prop, tier, path string) int {
 	}
 	common.Broken("replay: no configuration matches scenario %q in this tier", doc.Replay.Scenario)
 	return 2
+}
+
+// RacePass is the auxiliary free-running -race pass (DESIGN.md 3.4) for generated-code
+// harnesses: the same scenario bodies, built with the race detector from the instrumented
+// sources in passthrough mode and run without the scheduler. Sampling; reported separately.
+func RacePass(c *common.Check, b Built, prop string, runs int) {
+	bin := b.Bin + ".race"
+	if o, err := probe.GoBuild(b.Dir, "-race", "-overlay", filepath.Join(b.Dir, ".instr", "overlay.json"), "-o", bin, "./harness"); err != nil {
+		common.Broken("race build: %v\n%s", err, o)
+	}
+	cmd := exec.Command(bin, "--prop", prop, "--tier", "quick", "--free-run", strconv.Itoa(runs))
+	cmd.Env = append(os.Environ(), "VERIF_FREE_RUN=1", "GORACE=halt_on_error=0", "VERIF_CONFIG="+b.Cfg.Name)
+	var stderr strings.Builder
+	cmd.Stderr = &stderr
+	out, _ := cmd.Output()
+	races := strings.Count(stderr.String(), "WARNING: DATA RACE")
+	c.Cov["race_pass"] = map[string]any{"config": b.Cfg.Name, "runs_per_scenario": runs, "data_races_reported": races, "summary": strings.TrimSpace(string(out)),
+		"note": "auxiliary free-running -race pass: sampling, not the deciding step"}
+	if races > 0 {
+		rep := stderr.String()
+		if len(rep) > 6000 {
+			rep = rep[:6000]
+		}
+		c.Report("data-race", "the race detector reported a data race in the free-running pass:\n"+rep, map[string]any{"config": b.Cfg.Name, "report": rep})
+	}
+}
+
+// RacePassExtra runs a second race pass and records it under race_pass_2.
+func RacePassExtra(c *common.Check, b Built, prop string, runs int) {
+	first := c.Cov["race_pass"]
+	RacePass(c, b, prop, runs)
+	c.Cov["race_pass_2"] = c.Cov["race_pass"]
+	c.Cov["race_pass"] = first
 }
